@@ -306,6 +306,8 @@ impl<'p> CoroutinePool<'p> {
             self.notify(task_id);
             return Ok(r);
         }
+        #[cfg(feature = "verif")]
+        crate::verif::pause("join:after_first_check", task_id);
         if SchedulableCoroutine::current().is_some() {
             let timeout_time = get_timeout_time(wait_time);
             loop {
@@ -461,6 +463,8 @@ impl<'p> CoroutinePool<'p> {
             // todo windows support
             #[allow(unused_variables)]
             if let Some(pthread) = Scheduler::get_scheduling_thread(co_name) {
+                #[cfg(feature = "verif")]
+                crate::verif::pause("cancel:before_signal", task_id);
                 // 发送SIGVTALRM信号，在运行时取消任务
                 #[cfg(unix)]
                 if nix::sys::pthread::pthread_kill(pthread, nix::sys::signal::Signal::SIGVTALRM)
